@@ -233,6 +233,29 @@ ADDED7 = {
 for k, v in ADDED7.items():
     CLAIMS[k]["text"] += v
 
+ADDED8 = {
+ "C01": " Wave 7: R-ENDZLATEST (a finder for a \\Z find mode gives up only behind Runtextend minus the length), R-ENUMPOS (MayOverlap reads the raw member lists of positive classes only), R-STACKREL (saved stack positions are depths from the end of the stack).",
+ "C02": " Wave 7: R-STARTSENT (only a negative start offset selects the default start), R-BOUNDDEC (rune boundaries come from decoding, not from utf8.RuneStart).",
+ "C03": " Wave 7: R-KEEPLOOK (only zero-width nodes may precede a leading lookahead), R-ENDZLATEST.",
+ "C04": " Wave 7: R-SETCOMPLETE (a published first-rune set is collected from all alternatives), R-DIRTRUNC.",
+ "C05": " Wave 7: R-EOLNL also checks that the newline test has the form of the sibling test for a one-character successor, R-EQSUB (class equality includes the subtraction).",
+ "C06": " Wave 7: R-OFFTABLE (reader / byte adapters answer byte indexes from the offset table built while decoding), R-UNITCMP also rejects adding a rune count to a byte offset.",
+ "C08": " Wave 7: R-OFFTABLE, R-UNITCMP (+ / -).",
+ "C09": " Wave 7: R-DOLLARLIT (a ${...} whose name does not scan is literal text), R-UNITCMP.",
+ "C12": " Wave 7: R-STACKREL, R-STARTSET (elapsed time only from a start that is set).",
+ "C13": " Wave 7: R-ERRIDENT (errors are returned as they are or wrapped with %w), R-STACKREL.",
+ "C14": " Wave 7: R-NOWRAP (the caller's duration is not enlarged before it is scaled down), R-ERRIDENT, R-STARTSET.",
+ "C15": " Wave 7: R-DIRCOUNT (absolute character counts only in anchor arms of the interpreter).",
+ "C16": " Wave 7: R-NEGCLEAR (only the negation put there by canonicalize is taken back), R-ENUMPOS, R-EQSUB, R-FLIPADD also covers replacing the range list.",
+ "C17": " Wave 7: R-MAPOK (group tables are read comma-ok), R-DIGITNAME (a name is a number only if all digits), R-PRESCANSTATE (the pre-scan keeps the scanner state of the main parse).",
+ "C18": " Wave 7: R-PRESCANSTATE, R-OPTSTACK also rejects saving the options before a (?#...) comment is consumed.",
+}
+for k, v in ADDED8.items():
+    if k in CLAIMS:
+        CLAIMS[k]["text"] += v
+    else:
+        _late[k] = _late.get(k, "") + v
+
 CLAIMS["C06"] = dict(
    technique="static analysis: method-set / signature comparison on go/types against the standard library's *regexp.Regexp, SSA unit taint (rune positions vs byte offsets) over package compat, guard dominance on go/cfg for groups without captures, delegation check of the find-all limit, sibling agreement of the parser's dialect predicates",
    text="Decides structural necessary conditions of the adapter returning what Go's regexp returns: every Match*/Find* method of *regexp.Regexp exists on the adapter with an identical signature and is covered by the compile-time witnesses (R-SURFACE); no value computed from Capture.RuneIndex / RuneLength reaches an []int the adapter fills or a bound of a byte slice except through an offset table (R-BYTEUNIT), byte offsets are never compared with rune indexes (R-UNITCMP) and the lazily built offset table is created at the first rune that is not one byte wide (R-LAZYTABLE); a group without captures is reported as -1 pairs / nil / empty and never sliced (R-UNSETPAIR); n == 0 gives nil in every find-all method (R-NZERO); the first empty match is kept and the empty-match-next-to-previous rule is direction-aware (R-PREVINIT, R-DIRFOLD); the RE2 dialect switches of \\w \\d \\s, their forms inside a class and \\b / \\B are taken under the same option predicates (R-DIALECTSIB). It does NOT decide the equality itself: what is matched (leftmost-first vs backtracking semantics, class contents, anchors) is outside this technique.",
